@@ -225,6 +225,13 @@ func (r *caseRun) buildGrouped(rng *rand.Rand, mode string) *nject.Collection {
 	case "append":
 		k := rng.Intn(len(items) + 1)
 		c = nject.Sequence("c", items[:k]...).Append("c", items[k:]...)
+	case "append-siblings":
+		// two collections appended from one base; the first is used after the second was made
+		k := rng.Intn(len(items) + 1)
+		base := nject.Sequence("c", items[:k]...)
+		c = base.Append("c", items[k:]...)
+		other := base.Append("c", func(T0) T7 { return T7{} }, func(T7) {})
+		_ = other.String()
 	default:
 		c = nject.Sequence("c", items...)
 	}
@@ -295,7 +302,7 @@ func runNeutralPairs(c *CaseDesc, rng *rand.Rand) []string {
 		out = withPair(out, kind, v, sb.diff(summarize(v, true)))
 	}
 	// 1. grouping
-	for _, mode := range []string{"nested", "append"} {
+	for _, mode := range []string{"nested", "append", "append-siblings"} {
 		m := mode
 		sub := rand.New(rand.NewSource(rng.Int63()))
 		add("group-"+m, runCaseWith(c.clone(), func(r *caseRun) *nject.Collection { return r.buildGrouped(sub, m) }))
